@@ -121,16 +121,21 @@ pub fn drive_spline(a: &Args, m: &mut Mon, sink: &mut Sink) {
     let prop = a.prop.clone();
     let tag = if prop == "C05" { "C05" } else { "C04" };
     m.floors(&["family_x:integer_grid", "family_x:far_from_origin", "family_x:geometric_spacing", "family_x:scaled", "family_y:oscillating", "family_y:plateaux",
-        "family_y:ramp_into_plateau", "family_y:collinear", "family_y:collinear_plus_noise", "family_y:monotone_increasing", "family_y:signed_zero_plateau", "three_knots", "segments_checked"]);
+        "family_y:ramp_into_plateau", "family_y:collinear", "family_y:collinear_plus_noise", "family_y:monotone_increasing", "family_y:signed_zero_plateau", "three_knots", "segments_checked", "very_long_knot_sets"]);
     spline_canaries(m, sink);
     let mut r = Rng::lane(a.seed, tag, a.shard, 0);
     let n = a.n(40_000, 1_500_000);
-    for _ in 0..n {
-        let nk = match r.below(10) {
-            0 => 3,
-            1..=6 => r.usize(4, 8),
-            7 | 8 => r.usize(9, 20),
-            _ => r.usize(21, 60),
+    for k in 0..n {
+        let nk = if k % 2500 == 77 {
+            m.count("very_long_knot_sets");
+            r.usize(1000, 2600)
+        } else {
+            match r.below(10) {
+                0 => 3,
+                1..=6 => r.usize(4, 8),
+                7 | 8 => r.usize(9, 20),
+                _ => r.usize(21, 60),
+            }
         };
         let (xs, xf) = abscissae(&mut r, nk);
         let (ys, yf) = ordinates(&mut r, &xs);
@@ -181,15 +186,20 @@ fn spline_canaries(m: &mut Mon, sink: &mut Sink) {
 
 pub fn drive_linear(a: &Args, m: &mut Mon, sink: &mut Sink) {
     m.floors(&["family:strictly_increasing", "family:repeated_abscissae", "family:out_of_order_runs", "family:epsilon_gaps", "family:large_offsets", "two_knots",
-        "segments_checked", "narrow_segment_constant", "evaluations_checked"]);
+        "segments_checked", "narrow_segment_constant", "evaluations_checked", "very_long_knot_sets"]);
     linear_canaries(m, sink);
     let mut r = Rng::lane(a.seed, "C06", a.shard, 0);
     let n = a.n(60_000, 2_500_000);
-    for _ in 0..n {
-        let nk = match r.below(10) {
-            0 => 2,
-            1..=7 => r.usize(3, 8),
-            _ => r.usize(9, 50),
+    for k in 0..n {
+        let nk = if k % 2500 == 77 {
+            m.count("very_long_knot_sets");
+            r.usize(1000, 2600)
+        } else {
+            match r.below(10) {
+                0 => 2,
+                1..=7 => r.usize(3, 8),
+                _ => r.usize(9, 50),
+            }
         };
         let (xs, fam): (Vec<f64>, &'static str) = match r.below(8) {
             0 | 1 => (abscissae(&mut r, nk).0, "strictly_increasing"),
